@@ -1381,12 +1381,19 @@ class Executor:
     def where(self, fr, bb):
         return '%s:bb%d' % (fr.item.name, bb)
 
+    def _init_zst_locals(self, fr, st):
+        """non-capturing closures are zero-sized locals that MIR never assigns: give them their value up front"""
+        for n, t in fr.item.locals.items():
+            if isinstance(t, str) and t.startswith('{closure@') and ('L', fr.fid, n) not in st.store:
+                st.store[('L', fr.fid, n)] = Closure(norm_type(t), ())
+
     def run_item_paths(self, item, args, st):
         """Run a MIR body path by path (no merging); returns [(ret_value, state)] (possibly empty)"""
         fr = Frame(item, next(self.fid_counter))
         self.functions_run[item.name] = item.text_hash
         for n, v in zip(item.args, args):
             st.store[('L', fr.fid, n)] = v
+        self._init_zst_locals(fr, st)
         self.call_depth += 1
         try:
             finals = self.run_body(fr, st, nomerge=True)
@@ -1408,6 +1415,7 @@ class Executor:
             raise Unsupported('arity mismatch calling %s: %d vs %d' % (item.name, len(args), len(item.args)))
         for n, v in zip(item.args, args):
             st.store[('L', fr.fid, n)] = v
+        self._init_zst_locals(fr, st)
         self.call_depth += 1
         if self.call_depth > self.max_call_depth:
             raise Unsupported('call depth exceeded in %s' % item.name)
